@@ -124,7 +124,7 @@ func (propC03) Expand(t *testing.T, p *Plan) []*Plan {
 				ek = "unexpected"
 			}
 			if sweep == "read_error" {
-				ek = []string{"", "deadline", "closed", "with_data"}[p.Run%4]
+				ek = []string{"", "deadline", "closed", "with_data", "wraps_unexpected_eof", "wraps_eof", "reset"}[p.Run%7]
 			}
 			out = append(out, mk(Fault{Kind: sweep, Container: c.ID, Open: -1, Offset: off, ErrKind: ek}, class))
 		}
